@@ -368,5 +368,12 @@ func runC09(c *Ctx, idx int, o *Obs) {
 				judge("gotree compute consensus", ct)
 			}
 		}
+		// rejection clause through the command: a threshold outside [0.5,1], however it is written
+		bad := gen.Pick(r, "0.49", "0", "1.01", "2", "50", "70", "100", "1e2", "5e-1.0", "-0.7")
+		rb := runCLI(c, inStdin, append(append([]string{"compute", "consensus"}, inArgs...), "-f", bad)...)
+		o.Ev("cli_bad_threshold", 1)
+		o.Check(!rb.Panic && !rb.Signal, "cli_crash", "gotree compute consensus -f "+bad+": "+rb.brief(), inp)
+		o.Check(rb.Exit != 0 || strings.TrimSpace(rb.Stdout) == "", "cli_cutoff_accepted",
+			fmt.Sprintf("gotree compute consensus -f %s: threshold outside [0.5,1] accepted, output %s", bad, Trunc(rb.Stdout, 300)), inp)
 	}
 }
